@@ -110,14 +110,15 @@ def run_calls(tier, rng):
                 sb[i] = v
             for ws in range(0, n - 1):
                 for we in range(ws + 1, n):
-                    for mn in (1, 2, 3):
+                    # the minimum length is a duration in seconds, not necessarily a whole number of slots
+                    for msec in (g, 2 * g, 3 * g, g // 2, g + 1, g + g // 2, 2 * g - 1, 2 * g + 60):
                         iv = TimeInterval(start + timedelta(seconds=ws * g), start + timedelta(seconds=we * g))
 
                         def scan():
-                            res = sb.collectIntervals(iv, mn * g, lambda v: v is True)
+                            res = sb.collectIntervals(iv, msec, lambda v: v is True)
                             return [[secs(start, r.start) // g, secs(start, r.end) // g] for r in res]
                         r = both(scan)
-                        calls.append(dict(op="runs", pat=list(pat), ws=ws, we=we, min=mn, **r))
+                        calls.append(dict(op="runs", pat=list(pat), ws=ws, we=we, minsec=msec, g=g, **r))
     return calls
 
 
